@@ -125,7 +125,13 @@ def run_case(seed, L, dims, chi, deficient, ops, alias=None, rescale=None):
             return None, None, [f"{op} raised {type(e).__name__}: {e}"]
         if op[0] == "flip":
             flipped = not flipped
-        w = vec_of(mps, flipped)
+        try:
+            w = vec_of(mps, flipped)
+            if w.shape != v.shape:
+                raise ValueError(f"vector of {w.size} entries instead of {v.size}")
+        except Exception as e:  # noqa: BLE001 — the chain no longer contracts to a vector of the original space
+            shapes = [tuple(t.shape) for t in mps.tensors]
+            return None, None, [f"after {op} (step {k}) the network is no longer a valid MPS of the input space: tensor shapes {shapes} ({type(e).__name__}: {e})"]
         rescales = op[0] == "normalize" or (op[0] in ("shiftR",) and op[1] == L - 1) or (op[0] == "shiftL" and op[1] == 0)
         nv, nw = np.linalg.norm(v), np.linalg.norm(w)
         if rescales:
